@@ -106,7 +106,7 @@ func (g *egen) outerList(d int) string {
 func (g *egen) innerList(d int) string {
 	r := g.r
 	if g.it != "" && r.chance(1, 2) {
-		return g.it + ".value.ys"
+		return g.it + r.pick(".value.ys", ".value.ys", ".value.ys[*]", ".value[*].ys[0]")
 	}
 	switch r.n(5) {
 	case 0:
@@ -385,9 +385,9 @@ func genB0Body(r *rnd, g *egen, depth int) BodyM {
 	if r.chance(1, 2) {
 		b.Attrs = append(b.Attrs, AttrM{Name: "q", Expr: g.str(depth)})
 	}
-	if r.chance(1, 3) {
+	if r.chance(1, 2) {
 		// nested block, static or dynamic
-		if r.chance(1, 2) {
+		if r.chance(2, 5) {
 			b.Blocks = append(b.Blocks, BlockM{Type: "inner", Body: BodyM{Attrs: []AttrM{{Name: "r", Expr: g.anyExpr(depth - 1)}}}})
 		} else {
 			ig := &egen{r: r, it: g.it, in: "inner"}
@@ -659,6 +659,24 @@ func genCase(seed uint64, profile string, deep, cold bool) *Case {
 		}
 		c.Tasks = append(c.Tasks, tm)
 	}
+	c.Pretouch = r.chance(1, 2)
+	if !cold && r.chance(1, 6) {
+		// focus shape: a dynamic block over shared data whose content holds a
+		// nested dynamic block with a splat in its for_each, and every task
+		// decoding the bodies of the blocks it generates
+		inner := BlockM{Type: "inner", Dyn: &DynM{ForEach: r.pick("b0.value.ys[*]", "flatten(c_xs[*].ys)", "c_xs[*].ys[0]", "b0.value[*].ys[0]", "[for y in b0.value.ys[*] : y]")},
+			Body: BodyM{Attrs: []AttrM{{Name: "r", Expr: r.pick("inner.value.w", `"${b0.value.v}/${inner.value.w}"`, "upper(inner.value.w)")}}}}
+		outer := BlockM{Type: "b0", Dyn: &DynM{ForEach: r.pick("c_xs", "c_xs[*]", "[for x in c_xs : x]")},
+			Body: BodyM{Attrs: []AttrM{{Name: "p", Expr: r.pick("b0.value.v", "b0.value.ys[*].w", "c_xs[*].v")}}, Blocks: []BlockM{inner}}}
+		f := r.n(len(c.Files))
+		c.Files[f].Body.Blocks = append(c.Files[f].Body.Blocks, outer)
+		c.Pretouch = true
+		c.Tasks[0].Ops[0].Kind = "gen_decode"
+		c.Tasks[0].Ops[0].Target |= 1 << 12
+	} else if c.Pretouch && !cold && r.chance(1, 4) {
+		// shared generated block bodies exist only in pretouch cases
+		c.Tasks[0].Ops[0].Kind = "gen_decode"
+	}
 	// tasks overlap on the very same expression or body in most runs
 	if r.chance(3, 4) && nt >= 2 {
 		first := c.Tasks[0].Ops[0]
@@ -670,7 +688,6 @@ func genCase(seed uint64, profile string, deep, cold bool) *Case {
 	}
 	c.ExpandCheck = r.chance(1, 3)
 	c.PoolsRetain = r.chance(2, 5)
-	c.Pretouch = r.chance(1, 2)
 	if cold {
 		c.ConcFirst, c.Pretouch = true, false
 	}
@@ -858,6 +875,15 @@ func renderJSON(b BodyM, arr int) string {
 			dp = append(dp, jstr(t)+": ["+strings.Join(dyn[t], ", ")+"]")
 		}
 		parts = append(parts, `"dynamic": {`+strings.Join(dp, ", ")+"}")
+	}
+	// "//" properties are comments in a JSON body; where one goes depends on
+	// the body's shape only (no extra field in the case description)
+	switch len(parts) % 4 {
+	case 1:
+		parts = append([]string{`"//": "a comment property"`}, parts...)
+	case 2:
+		mid := len(parts) / 2
+		parts = append(parts[:mid:mid], append([]string{`"//": ["comment", "in the middle"]`}, parts[mid:]...)...)
 	}
 	if arr > 0 && len(parts) >= 2 {
 		// first object gets all but the last one or two properties (parsers
